@@ -46,21 +46,55 @@ type concEvent struct {
 }
 
 type concRun struct {
-	c       *concCase
-	r       *libaudit.Reassembler
-	current int // goroutine that holds the token (only it runs)
-	resume  map[int]chan struct{}
-	events  chan concEvent
-	obs     []concObs
-	armed   map[int]bool
-	ids     map[*auparse.AuditMessage]int
-	inNest  map[int]bool
+	c      *concCase
+	r      *libaudit.Reassembler
+	resume map[int]chan struct{}
+	events chan concEvent
+	mu     sync.Mutex // obs and ids (several goroutines run once the schedule has been left)
+	obs    []concObs
+	ids    map[*auparse.AuditMessage]int
+	armed  []bool // per goroutine, touched by that goroutine only
+	inNest []bool
+	goids  sync.Map      // runtime goroutine id -> g
+	free   atomic.Bool   // the schedule no longer fits what the code does: gates are open
+	freeCh chan struct{} // closed when free is set
 }
 
+// goid: the runtime's id of the calling goroutine (callbacks carry no other identity).
+func goid() int64 {
+	var buf [64]byte
+	n := runtime.Stack(buf[:], false)
+	var id int64
+	for _, c := range buf[len("goroutine "):n] {
+		if c < '0' || c > '9' {
+			break
+		}
+		id = id*10 + int64(c-'0')
+	}
+	return id
+}
+
+func (cr *concRun) curG() int {
+	if v, ok := cr.goids.Load(goid()); ok {
+		return v.(int)
+	}
+	return 0
+}
+
+// gate parks the calling goroutine until the scheduler hands it the token (or opens all gates).
 func (cr *concRun) gate() {
-	g := cr.current
+	if cr.free.Load() {
+		return
+	}
+	g := cr.curG()
+	if g == 0 {
+		return // a goroutine the case did not start (none in the code as it stands)
+	}
 	cr.events <- concEvent{g, "parked"}
-	<-cr.resume[g]
+	select {
+	case <-cr.resume[g]:
+	case <-cr.freeCh:
+	}
 }
 
 func (cr *concRun) log(o concObs) {
@@ -68,15 +102,18 @@ func (cr *concRun) log(o concObs) {
 	if o.IDs == nil {
 		o.IDs = []int{}
 	}
+	cr.mu.Lock()
 	cr.obs = append(cr.obs, o)
+	cr.mu.Unlock()
 }
 
 func (cr *concRun) ReassemblyComplete(msgs []*auparse.AuditMessage) {
 	if cr.c.Fine {
 		cr.gate()
 	}
-	g := cr.current
+	g := cr.curG()
 	ids := make([]int, 0, len(msgs))
+	cr.mu.Lock()
 	for _, m := range msgs {
 		if id, ok := cr.ids[m]; ok {
 			ids = append(ids, id)
@@ -84,9 +121,10 @@ func (cr *concRun) ReassemblyComplete(msgs []*auparse.AuditMessage) {
 			ids = append(ids, -1)
 		}
 	}
+	cr.mu.Unlock()
 	nested := cr.inNest[g]
 	cr.log(concObs{E: "cb", G: g, IDs: ids, Nested: nested})
-	if !nested && cr.armed[g] && cr.c.Re[g-1].Op != "none" {
+	if !nested && g > 0 && cr.armed[g] && cr.c.Re[g-1].Op != "none" {
 		cr.armed[g] = false
 		cr.inNest[g] = true
 		cr.doOp(g, cr.c.Re[g-1], 100*g+90, true)
@@ -95,7 +133,7 @@ func (cr *concRun) ReassemblyComplete(msgs []*auparse.AuditMessage) {
 }
 
 func (cr *concRun) EventsLost(count int) {
-	g := cr.current
+	g := cr.curG()
 	cr.log(concObs{E: "lost", G: g, N: count, Nested: cr.inNest[g]})
 }
 
@@ -116,7 +154,9 @@ func (cr *concRun) doOp(g int, op rsOp, id int, nested bool) {
 				Sequence:   uint32(1000 + op.Off),
 				RawData:    fmt.Sprintf("audit(1490137971.011:%d): vid=%d", 1000+op.Off, id),
 			}
+			cr.mu.Lock()
 			cr.ids[m] = id
+			cr.mu.Unlock()
 			cr.r.PushMessage(m)
 		case "maintain":
 			if err := cr.r.Maintain(); err != nil {
@@ -131,25 +171,33 @@ func (cr *concRun) doOp(g int, op rsOp, id int, nested bool) {
 	cr.log(concObs{E: "ret", G: g, Op: op.Op, ID: id, Ret: ret, Nested: nested})
 }
 
-// runConcCase executes one schedule. It returns the observation and whether a
-// goroutine got stuck (never reached its next gate).
+// runConcCase executes one schedule: one goroutine runs at a time, from gate to gate, in the order
+// the model's behaviour gives.  When the code does not follow the schedule - a goroutine is finished
+// when its turn comes, does not reach a gate (it waits for a lock that a parked goroutine holds), or
+// still has gates to pass when the schedule ends: the code's grain is not the model's - all gates are
+// opened and the goroutines run on freely; what they did is judged all the same.  Stuck means that
+// the goroutines did not finish even with every gate open: a deadlock of the code itself.
 func runConcCase(c *concCase, stuckAfter time.Duration) ([]concObs, bool) {
-	cr := &concRun{c: c, resume: map[int]chan struct{}{}, events: make(chan concEvent, 16),
-		armed: map[int]bool{}, ids: map[*auparse.AuditMessage]int{}, inNest: map[int]bool{}}
+	n := len(c.Prog)
+	cr := &concRun{c: c, resume: map[int]chan struct{}{}, events: make(chan concEvent, 4096),
+		ids: map[*auparse.AuditMessage]int{}, armed: make([]bool, n+1), inNest: make([]bool, n+1), freeCh: make(chan struct{})}
 	r, err := libaudit.NewReassembler(c.Max, 10000*time.Hour, cr)
 	if err != nil {
 		fatal("NewReassembler: %v", err)
 	}
 	cr.r = r
 	libaudit.VerifYield = func(string) { cr.gate() }
-	n := len(c.Prog)
 	for g := 1; g <= n; g++ {
 		cr.resume[g] = make(chan struct{})
 		cr.armed[g] = true
 	}
 	for g := 1; g <= n; g++ {
 		go func(g int) {
-			<-cr.resume[g] // wait for the first token
+			cr.goids.Store(goid(), g)
+			select { // wait for the first token
+			case <-cr.resume[g]:
+			case <-cr.freeCh:
+			}
 			for i, op := range c.Prog[g-1] {
 				if i > 0 {
 					cr.gate() // entry gate of the next operation
@@ -159,25 +207,54 @@ func runConcCase(c *concCase, stuckAfter time.Duration) ([]concObs, bool) {
 			cr.events <- concEvent{g, "done"}
 		}(g)
 	}
-	timer := time.NewTimer(stuckAfter)
-	defer timer.Stop()
+	const gateWait = 1500 * time.Millisecond // far beyond what a step between two gates takes
+	finished := map[int]bool{}
+	fits := true
 	for _, g := range c.Sched {
-		cr.current = g
-		cr.resume[g] <- struct{}{}
-		if !timer.Stop() {
-			select {
-			case <-timer.C:
-			default:
-			}
+		if finished[g] {
+			fits = false
+			break
 		}
-		timer.Reset(stuckAfter)
 		select {
-		case <-cr.events:
-		case <-timer.C:
-			return cr.obs, true
+		case cr.resume[g] <- struct{}{}:
+		case <-time.After(gateWait):
+			fits = false
+		}
+		if !fits {
+			break
+		}
+		select {
+		case ev := <-cr.events:
+			if ev.kind == "done" {
+				finished[ev.g] = true
+			}
+		case <-time.After(gateWait):
+			fits = false
+		}
+		if !fits {
+			break
 		}
 	}
-	return cr.obs, false
+	stuck := false
+	if !fits || len(finished) < n {
+		cr.free.Store(true)
+		close(cr.freeCh)
+		deadline := time.After(stuckAfter)
+		for len(finished) < n && !stuck {
+			select {
+			case ev := <-cr.events:
+				if ev.kind == "done" {
+					finished[ev.g] = true
+				}
+			case <-deadline:
+				stuck = true
+			}
+		}
+	}
+	cr.mu.Lock()
+	obs := append([]concObs(nil), cr.obs...)
+	cr.mu.Unlock()
+	return obs, stuck
 }
 
 func compactObs(o concObs) []interface{} {
